@@ -17,13 +17,13 @@ def run(ctx):
     ctx.tlc_mc("node", "MCNode.tla", "MC_Node.cfg", timeout=900)
     scheds = []
     seen = set()
-    for h in ctx.tlc_sim("node", "NodeSim.tla", "Sim_Node.cfg", num=4 if q else 40, depth=160, timeout=600):
+    for h in ctx.tlc_sim("node", "NodeSim.tla", "Sim_Node.cfg" if q else "Sim_Node_t.cfg", num=4 if q else 60, depth=160 if q else 400, timeout=900):
         k = json.dumps(h)
         if k not in seen:
             seen.add(k)
             scheds.append(h)
     random.Random(ctx.seed).shuffle(scheds)
-    scheds = scheds[: (4 if q else 40)]
+    scheds = scheds[: (4 if q else 60)]
     ind = os.path.join(ctx.work, "in-c03")
     os.makedirs(ind, exist_ok=True)
     json.dump(scheds, open(os.path.join(ind, "schedules.json"), "w"))
